@@ -107,18 +107,26 @@ impl Vm {
         requires old(self).vecs.dom().contains(g.id())
         ensures final(self).stack == old(self).stack, final(self).vecs == old(self).vecs, final(self).raised == old(self).raised,
             r matches Ok(IndexResult::Scalar(v)) ==> ({ let i = old(self).top(0).index_in(old(self).vecs[g.id()].len() as int); i is Some && v == old(self).vecs[g.id()][i->0] }),
-            r matches Ok(IndexResult::Slice(_)) ==> !(old(self).top(0) is Number),
+            r matches Ok(IndexResult::Slice(vs)) ==> !(old(self).top(0) is Number) && vs@.len() <= old(self).vecs[g.id()].len() && forall|k: int| 0 <= k < vs@.len() ==> old(self).vecs[g.id()].contains(#[trigger] vs@[k]),
     { unimplemented!() }
     #[verifier::external_body]
     fn slice_get_item(&mut self, elements: &Vec<Value>, kind: &str) -> (r: Result<IndexResult, Error>)
         ensures final(self).stack == old(self).stack, final(self).vecs == old(self).vecs, final(self).raised == old(self).raised,
             r matches Ok(IndexResult::Scalar(v)) ==> ({ let i = old(self).top(0).index_in(elements@.len() as int); i is Some && v == elements@[i->0] }),
-            r matches Ok(IndexResult::Slice(_)) ==> !(old(self).top(0) is Number),
+            r matches Ok(IndexResult::Slice(vs)) ==> !(old(self).top(0) is Number) && forall|k: int| 0 <= k < vs@.len() ==> elements@.contains(#[trigger] vs@[k]),
     { unimplemented!() }
+    // ALLOCATION of a tuple / vector built from values that are not on the stack themselves (a slice): the allocation
+    // may run a collection (in the checked configuration it always does), so every element must be reachable from the
+    // value stack at that moment — here: be an element of a container that is still on the stack (C01, C10)
+    pub open spec fn rooted_via_stack(&self, vs: Seq<Value>) -> bool {
+        exists|d: int| 0 <= d < self.stack.len() && (
+            (#[trigger] self.stack[d] matches Value::ObjTuple(g) && forall|k: int| 0 <= k < vs.len() ==> g.obj().elements@.contains(#[trigger] vs[k]))
+            || (self.stack[d] matches Value::ObjVec(g) && self.vecs.dom().contains(g.id()) && forall|k: int| 0 <= k < vs.len() ==> self.vecs[g.id()].contains(#[trigger] vs[k])))
+    }
     #[verifier::external_body]
-    fn new_root_obj_tuple(&mut self, elements: Vec<Value>) -> (r: Root<ObjTuple>) ensures final(self).stack == old(self).stack, final(self).vecs == old(self).vecs, final(self).raised == old(self).raised { unimplemented!() }
+    fn new_root_obj_tuple(&mut self, elements: Vec<Value>) -> (r: Root<ObjTuple>) requires old(self).rooted_via_stack(elements@) ensures final(self).stack == old(self).stack, final(self).vecs == old(self).vecs, final(self).raised == old(self).raised { unimplemented!() }
     #[verifier::external_body]
-    fn new_vec_value(&mut self, class: Gc<ObjClass>, elements: Vec<Value>) -> (r: Value) ensures final(self).stack == old(self).stack, final(self).raised == old(self).raised, forall|i: int| #[trigger] old(self).vecs.dom().contains(i) ==> final(self).vecs.dom().contains(i) && final(self).vecs[i] == old(self).vecs[i] { unimplemented!() }
+    fn new_vec_value(&mut self, class: Gc<ObjClass>, elements: Vec<Value>) -> (r: Value) requires old(self).rooted_via_stack(elements@) ensures final(self).stack == old(self).stack, final(self).raised == old(self).raised, forall|i: int| #[trigger] old(self).vecs.dom().contains(i) ==> final(self).vecs.dom().contains(i) && final(self).vecs[i] == old(self).vecs[i] { unimplemented!() }
 
     // BuildVec n / BuildTuple n: the n operands on top of the stack become the elements IN THE ORDER THEY WERE PUSHED
     // (the first element of `[a, b, c]` is a) and are replaced by the new container; the operand count cannot exceed
@@ -180,7 +188,9 @@ impl Vm {
     //@end
 
     // v[i] on a vector: container and index are replaced by the element (or by a new vector for a range)
-    //@fn file=yarel/src/vm.rs path=Vm::vec_get_item ret=r
+    // (C01 / C10: the slice is a NEW object — its allocation may run a collection, in the checked configuration it always
+    // does —, so container and index must still be on the stack, where the collector finds them, when it is allocated)
+    //@fn file=yarel/src/vm.rs path=Vm::vec_get_item ret=r props=C13,C02,C01,C10
     //@  subst ".try_as_obj_vec().expect(\"Expected ObjVec\")" => ".try_as_obj_vec().unwrap()"
     //@  subst "self.slice_get_item(&vec.borrow().elements, \"Vec\")?" => "self.slice_get_item_of_vec(vec)?"
     //@  subst "let vec = Root::new(RefCell::new(ObjVec::with_elements(class, values))); Value::ObjVec(vec.as_gc())" => "self.new_vec_value(class, values)"
@@ -190,7 +200,7 @@ impl Vm {
     //@  ensures forall|i: int| #[trigger] old(self).vecs.dom().contains(i) ==> final(self).vecs.dom().contains(i) && final(self).vecs[i] == old(self).vecs[i]
     //@end
 
-    //@fn file=yarel/src/vm.rs path=Vm::tuple_get_item ret=r
+    //@fn file=yarel/src/vm.rs path=Vm::tuple_get_item ret=r props=C13,C02,C01,C10
     //@  subst ".try_as_obj_tuple().expect(\"Expected ObjTuple\")" => ".try_as_obj_tuple().unwrap()"
     //@  subst "let tuple = self.new_root_obj_tuple(values); Value::ObjTuple(tuple.as_gc())" => "{ let tuple = self.new_root_obj_tuple(values); Value::ObjTuple(tuple.as_gc()) }"
     //@  requires old(self).stack.len() >= 2, old(self).top(1) is ObjTuple
